@@ -7,14 +7,17 @@
  * messages that were hashed so far.  "Not found" means the message was never hashed by the code
  * under test; under the collision-freeness assumption of the model its digest then differs from
  * every recorded digest, so a chain or a reference tree that needs it cannot reproduce a root
- * that the builder computed.  The callers CHECK found.
+ * that the builder computed.  The callers CHECK c16_H_missing == 0.
  *
  * Reference tree (KSI aggregation tree built on the fly): leaves are merged left to right into a
  * forest of perfect binary trees exactly like incrementing a binary counter (slot i holds a tree
  * of 2^i leaves; a new leaf is a carry that joins with every occupied slot from slot 0 upwards
- * until it reaches a free one); closing joins the remaining trees from the lowest slot upwards,
- * the tree of the HIGHER slot (= earlier leaves) on the LEFT.  join(l, r): level = max(l, r) + 1,
- * hash = H(l || r || level byte).  All of this is concrete in the number of leaves.
+ * until it reaches a free one, the slot's tree on the LEFT); closing joins the remaining trees from
+ * the lowest slot upwards, the tree of the HIGHER slot (= earlier leaves) on the LEFT.
+ * join(l, r): level = max(l, r) + 1, hash = H(l || r || level byte).
+ * The occupancy of the slots depends only on the number of leaves, which is concrete in every harness.
+ *   c16_lf_*     levels only (used to decide acceptance before anything is hashed)
+ *   c16_forest_* values and levels (used after close, when every message is on record)
  *
  * Chain formula (KSI aggregation hash chain): start at the leaf value and the leaf level; each link:
  * level += correction + 1; value = H(value || sibling || level) for a left link and
@@ -23,21 +26,58 @@
 #define C16_REF_H_
 
 #define C16_VMAX 33            /* longest value: SHA2-256 imprint */
-#define C16_SLOTS 8            /* binary counter slots of the reference (<= 255 leaves) */
+#ifndef C16_SLOTS
+#define C16_SLOTS 5            /* binary counter slots of the reference (<= 31 leaves) */
+#endif
 
 struct c16_val {
 	u8 b[C16_VMAX];
 	unsigned len;              /* concrete */
-	unsigned level;            /* symbolic; > 255 = out of range */
-	int used;                  /* concrete */
+	unsigned level;            /* symbolic; 256 = out of range */
 };
 
 static unsigned c16_alg_len(int alg) {
 	return alg == KSI_HASHALG_SHA1 ? 20 : alg == KSI_HASHALG_SHA2_256 ? 32 : alg == KSI_HASHALG_RIPEMD160 ? 20 : alg == KSI_HASHALG_SHA2_384 ? 48 : 64;
 }
 
-/* number of failed look-ups (must stay 0) */
-static unsigned c16_H_missing;
+/* level of a join; everything above 255 is reported as 256 = out of range */
+static unsigned c16_join_level(unsigned l, unsigned r) {
+	unsigned lv = (l > r ? l : r) + 1;
+	return lv > 255 ? 256 : lv;
+}
+
+/* ---------------- levels only ---------------- */
+struct c16_lf { unsigned level[C16_SLOTS]; int used[C16_SLOTS]; };
+
+static void c16_lf_init(struct c16_lf *f) { for (unsigned i = 0; i < C16_SLOTS; i++) { f->used[i] = 0; f->level[i] = 0; } }
+
+/* add one leaf (binary-counter carry).  Returns the highest level produced by the carries (256 = out of range). */
+static unsigned c16_lf_add(struct c16_lf *f, unsigned leaf_level) {
+	unsigned carry = leaf_level, hi = leaf_level;
+	int placed = 0;
+	for (unsigned i = 0; i < C16_SLOTS; i++) {
+		if (!placed) {
+			if (!f->used[i]) { f->level[i] = carry; f->used[i] = 1; placed = 1; }
+			else { carry = c16_join_level(f->level[i], carry); f->used[i] = 0; if (carry > hi) hi = carry; }
+		}
+	}
+	return hi;
+}
+
+/* level of the root if the forest were closed now (0 leaves: 0) */
+static unsigned c16_lf_close(const struct c16_lf *f) {
+	int have = 0; unsigned root = 0;
+	for (unsigned i = 0; i < C16_SLOTS; i++) {
+		if (f->used[i]) {
+			if (!have) { root = f->level[i]; have = 1; }
+			else root = c16_join_level(f->level[i], root);
+		}
+	}
+	return root;
+}
+
+/* ---------------- values ---------------- */
+static unsigned c16_H_missing;   /* number of failed look-ups (must stay 0) */
 
 /* out = imprint of H_alg(l || r || level byte), taken from the record table */
 static void c16_H(int alg, const struct c16_val *l, const struct c16_val *r, unsigned level, struct c16_val *out) {
@@ -50,77 +90,49 @@ static void c16_H(int alg, const struct c16_val *l, const struct c16_val *r, uns
 	m[n++] = (u8)level;
 	out->len = 1 + dl;
 	out->level = level;
-	out->used = 1;
 	out->b[0] = (u8)alg;
 	for (k = 1; k < C16_VMAX; k++) out->b[k] = 0;
 	for (q = 0; q < HM_REC_MAX; q++) {
-		if (q < VERIF_hm_nrec && !found && VERIF_hm_rec[q].alg == alg && VERIF_hm_rec[q].len == n) {
-			int eq = 1;
-			for (k = 0; k < 2 * C16_VMAX + 1; k++) if (k < n && VERIF_hm_rec[q].msg[k] != m[k]) eq = 0;
-			if (eq) {
-				found = 1;
-				for (k = 0; k < C16_VMAX - 1; k++) if (k < dl) out->b[1 + k] = VERIF_hm_rec[q].digest[k];
-			}
+		if (q < VERIF_hm_nrec && VERIF_hm_rec[q].alg == alg && VERIF_hm_rec[q].len == n) {
+			int eq = !found;
+			for (k = 0; k < 2 * C16_VMAX + 1; k++) if (k < n) eq = eq & (VERIF_hm_rec[q].msg[k] == m[k]);
+			for (k = 0; k < C16_VMAX - 1; k++) if (k < dl) out->b[1 + k] = eq ? VERIF_hm_rec[q].digest[k] : out->b[1 + k];
+			found = found | eq;
 		}
 	}
-	if (!found) c16_H_missing++;
+	c16_H_missing += !found;
 }
 
-/* join of the KSI tree: level = max + 1 (everything above 255 is reported as 256 = out of range).
- * with_hash: also look the hash up (callers do that only when they know that all levels are <= 255). */
-static void c16_join(int alg, const struct c16_val *l, const struct c16_val *r, struct c16_val *out, int with_hash) {
-	unsigned lv = (l->level > r->level ? l->level : r->level) + 1;
-	if (with_hash) c16_H(alg, l, r, lv, out);
-	else { out->len = 1 + c16_alg_len(alg); out->used = 1; for (unsigned k = 0; k < C16_VMAX; k++) out->b[k] = 0; }
-	out->level = lv > 255 ? 256 : lv;
+struct c16_forest { struct c16_val slot[C16_SLOTS]; int used[C16_SLOTS]; };
+
+static void c16_forest_init(struct c16_forest *f) { for (unsigned i = 0; i < C16_SLOTS; i++) f->used[i] = 0; }
+
+static void c16_join(int alg, const struct c16_val *l, const struct c16_val *r, struct c16_val *out) {
+	c16_H(alg, l, r, c16_join_level(l->level, r->level), out);
 }
 
-struct c16_forest { struct c16_val slot[C16_SLOTS]; };
-
-static void c16_forest_init(struct c16_forest *f) { for (unsigned i = 0; i < C16_SLOTS; i++) f->slot[i].used = 0; }
-
-/* add one leaf (binary-counter carry).  Returns the highest level produced by the carries
- * (256 = some join left 0..255; the forest is then not to be used any further). */
-static unsigned c16_forest_add(struct c16_forest *f, int alg, const struct c16_val *leaf, int with_hash) {
+static void c16_forest_add(struct c16_forest *f, int alg, const struct c16_val *leaf) {
 	struct c16_val carry = *leaf, t;
-	unsigned hi = leaf->level;
 	int placed = 0;
 	for (unsigned i = 0; i < C16_SLOTS; i++) {
 		if (!placed) {
-			if (!f->slot[i].used) { f->slot[i] = carry; f->slot[i].used = 1; placed = 1; }
-			else {
-				c16_join(alg, &f->slot[i], &carry, &t, with_hash);
-				f->slot[i].used = 0;
-				carry = t;
-				if (carry.level > hi) hi = carry.level;
-			}
+			if (!f->used[i]) { f->slot[i] = carry; f->used[i] = 1; placed = 1; }
+			else { c16_join(alg, &f->slot[i], &carry, &t); f->used[i] = 0; carry = t; }
 		}
 	}
-	return hi;
 }
 
-/* close: join the remaining trees from the lowest slot upwards, higher slot on the left.
- * Returns 0 when the forest is empty.  root->level == 256 when a join left 0..255. */
-static int c16_forest_close(const struct c16_forest *f, int alg, struct c16_val *root, int with_hash) {
+/* returns 0 when the forest is empty */
+static int c16_forest_close(const struct c16_forest *f, int alg, struct c16_val *root) {
 	int have = 0;
 	struct c16_val t;
 	for (unsigned i = 0; i < C16_SLOTS; i++) {
-		if (f->slot[i].used) {
+		if (f->used[i]) {
 			if (!have) { *root = f->slot[i]; have = 1; }
-			else { c16_join(alg, &f->slot[i], root, &t, with_hash); *root = t; }
+			else { c16_join(alg, &f->slot[i], root, &t); *root = t; }
 		}
 	}
 	return have;
-}
-
-/* level of the root if the forest were closed right now with one more leaf of level lv added */
-static unsigned c16_level_if_added(const struct c16_forest *f, int alg, unsigned lv) {
-	struct c16_forest g = *f;
-	struct c16_val leaf, root;
-	leaf.len = 0; leaf.level = lv; leaf.used = 1;
-	(void)c16_forest_add(&g, alg, &leaf, 0);
-	(void)c16_forest_close(&g, alg, &root, 0);
-	return root.level;
 }
 
 #endif
